@@ -1638,7 +1638,9 @@ def check_apply_trigger_waits(u):
     body = msk[o:c]
     name = "apply-trigger-of-a-fully-buffered-version-is-sent-with-a-waiting-send"
     obligations, failures, samples = [name], [], []
-    uses = [m for m in re.finditer(r"\btx_apply\b(\s*\(\s*\))?", body)]
+    # local names bound to the channel: `let X = agent.tx_apply().clone();`
+    names = set(["tx_apply"]) | set(m.group(1) for m in re.finditer(r"\blet\s+(?:mut\s+)?(\w+)\s*=\s*[\w.]*\btx_apply\s*\(\s*\)", body))
+    uses = [m for m in re.finditer(r"\b(?:%s)\b(\s*\(\s*\))?" % "|".join(sorted(map(re.escape, names))), body)]
     if not uses:
         raise LostAnchor("%s: tx_apply not used" % u["fn"])
     waiting = 0
